@@ -17,6 +17,11 @@
 // watchdog has expired (then Close hangs: it waited for a holder other than the
 // agent). Timing-free: Close returns, and the agent itself has been waited for.
 //
+// A third dimension: a goroutine of the caller is blocked in Stream.Write (4 MiB
+// to an agent that has stopped reading) when Close is called. Timing-free:
+// Close returns, the agent has been waited for, and the Write comes back with an
+// error once Close has returned.
+//
 // The op line is the behaviour (termination delay, the two grace periods as
 // extracted from the source, reaction delays) plus the observed stage; the
 // Lean ladder model must return in the same stage. Reaction times are chosen
@@ -84,6 +89,7 @@ func agentMain(args []string) {
 	if err != nil {
 		os.Exit(3)
 	}
+	noRead := len(args) > 7 && args[7] == "noread"
 	// A descendant that keeps some of this process' standard streams open and
 	// outlives it (an SSH ControlMaster, a credential helper, …).
 	if holders := args[4]; holders != "-" {
@@ -128,6 +134,11 @@ func agentMain(args []string) {
 				started = true
 				log("go")
 				close(goCh)
+				if noRead {
+					// from now on this agent does not drain its input: a large
+					// Write by the parent blocks on the full pipe
+					return
+				}
 			}
 			if err != nil {
 				log("eof")
@@ -173,6 +184,7 @@ type spec struct {
 	pre                  bool // let the agent exit before Close is called (self == 0)
 	holders              string // standard streams inherited by a detached descendant that outlives the agent: subset of "eoi", "" none
 	recv                 bool   // NewStream gets a standard error receiver
+	writer               bool   // a goroutine is blocked in Stream.Write (agent not reading) when Close is called
 }
 
 func (s spec) holderField() string {
@@ -194,7 +206,11 @@ func (s spec) line(obs string) string {
 	if s.recv {
 		r = "R"
 	}
-	return fmt.Sprintf("%d %d %d %s %s %s 0 %s %s = %s", s.delay, s.g1, s.g2, optField(s.self), optField(s.onStdin), optField(s.onTerm), s.holderField(), r, obs)
+	w := "-"
+	if s.writer {
+		w = "W"
+	}
+	return fmt.Sprintf("%d %d %d %s %s %s 0 %s %s %s = %s", s.delay, s.g1, s.g2, optField(s.self), optField(s.onStdin), optField(s.onTerm), s.holderField(), r, w, obs)
 }
 
 // predict is the oracle's arithmetic: exit time and stage, assuming prompt reactions.
@@ -231,6 +247,10 @@ type outcome struct {
 	goSent       int64
 	close0       int64
 	close1       int64
+	writeN       int
+	writeErr     error
+	writeAt      int64 // when the pending Write returned
+	writeHang    bool  // the pending Write did not return after Close
 	zombie       bool // at the watchdog's expiry the agent was an unreaped zombie
 	stuck        bool // Close did not even return after the descendant was released
 	inconclusive string
@@ -245,6 +265,7 @@ const (
 	slowAgent     = 200  // ms of lateness tolerated in the agent and in the escalation timers
 	slowHost      = 150  // ms of parent-side sleep overshoot tolerated
 	heartbeat     = 50   // ms between agent heartbeats
+	writerHeadStart = 100 // ms given to the pending Write to fill the pipe before Close is called
 	slowNotify    = 250  // ms from the agent's exit record to Close's return tolerated when stages differ
 	lateReturn    = 3000 // ms between the moment the exit was due and Close's return tolerated
 	hangAllowance = 30000 // ms beyond the ladder's maximum before Close is declared hung
@@ -319,7 +340,7 @@ func runCase(s spec, dir string, id int, ready func(), start <-chan struct{}) (o
 	defer os.Remove(release)
 	helperLife := s.delay + s.g1 + s.g2 + 2*hangAllowance + 20000
 	cmd := exec.Command(self, "c35agent", strconv.Itoa(s.self), strconv.Itoa(s.onStdin), strconv.Itoa(s.onTerm), jpath,
-		s.holderField(), release, strconv.Itoa(helperLife))
+		s.holderField(), release, strconv.Itoa(helperLife), map[bool]string{true: "noread", false: "read"}[s.writer])
 	cmd.Env = append(os.Environ(), "GOMAXPROCS=2", "GOGC=off")
 	var receiver io.Writer
 	if s.recv {
@@ -349,6 +370,19 @@ func runCase(s spec, dir string, id int, ready func(), start <-chan struct{}) (o
 	stream.Write([]byte("go\n"))
 	if s.pre {
 		time.Sleep(300 * time.Millisecond)
+	}
+	// A pending Write: far more than any pipe buffer, and the agent is not reading.
+	writeDone := make(chan struct{})
+	if s.writer {
+		go func() {
+			defer close(writeDone)
+			payload := make([]byte, 4<<20)
+			o.writeN, o.writeErr = stream.Write(payload)
+			o.writeAt = nowMs()
+		}()
+		time.Sleep(writerHeadStart * time.Millisecond)
+	} else {
+		close(writeDone)
 	}
 	done := make(chan struct{})
 	go func() {
@@ -382,6 +416,12 @@ func runCase(s spec, dir string, id int, ready func(), start <-chan struct{}) (o
 			o.stuck = true // even without the descendant Close does not come back; its goroutine is abandoned
 			o.close1 = nowMs()
 		}
+	}
+	// the pending Write must come back once Close has returned
+	select {
+	case <-writeDone:
+	case <-time.After(time.Duration(hangAllowance) * time.Millisecond):
+		o.writeHang = true
 	}
 	// the descendant must be gone before the journal is read and removed
 	if s.holders != "" {
@@ -502,6 +542,9 @@ func runCase(s spec, dir string, id int, ready func(), start <-chan struct{}) (o
 	if s.pre {
 		wantGap = 300
 	}
+	if s.writer {
+		wantGap += writerHeadStart
+	}
 	if o.inconclusive == "" && o.close0-o.goSent-wantGap > slowHost {
 		o.inconclusive = fmt.Sprintf("parent needed %d ms to get from the start signal to Close", o.close0-o.goSent)
 	}
@@ -519,6 +562,9 @@ func runCase(s spec, dir string, id int, ready func(), start <-chan struct{}) (o
 func judge(s spec, o outcome) string {
 	if o.hang {
 		extra := ""
+		if s.writer {
+			extra = " while a Write was pending on the agent's full input pipe"
+		}
 		if s.holders != "" {
 			extra = fmt.Sprintf(" while a descendant of the agent still held its standard streams (%s)", s.holders)
 		}
@@ -529,6 +575,12 @@ func judge(s spec, o outcome) string {
 	}
 	if o.aliveAfter != "" {
 		return "class=alive-after-close Close returned but " + o.aliveAfter
+	}
+	if s.writer && o.writeHang {
+		return fmt.Sprintf("class=write-hangs the Write that was pending when Close was called had not returned %d ms after Close", hangAllowance)
+	}
+	if s.writer && o.writeErr == nil && !o.writeHang {
+		return fmt.Sprintf("class=write-succeeded a %d-byte Write to an agent that does not read returned without error (%d bytes)", 4<<20, o.writeN)
 	}
 	// Hard bound: a stage is never entered before its nominal start.
 	start := map[string]int{"wait": 0, "stdin": s.delay, "term": s.delay + s.g1, "kill": s.delay + s.g1 + s.g2}[o.stage]
@@ -549,7 +601,7 @@ func judge(s spec, o outcome) string {
 	termAt, sawTerm := o.journal["term"]
 	if o.agentGap {
 		// the agent itself was starved: its records say nothing about Close
-	} else if sawTerm && !sawEOF && beatAfter(termAt) {
+	} else if sawTerm && !sawEOF && !s.writer && beatAfter(termAt) {
 		return "class=escalation-skipped the agent received SIGTERM although its standard input was never closed"
 	}
 	if o.agentGap {
@@ -753,6 +805,9 @@ func parseLine(l string) (spec, bool) {
 		default:
 			return spec{}, false
 		}
+		if len(f) >= 10 && f[9] == "W" {
+			sp.writer = true
+		}
 	}
 	return sp, true
 }
@@ -816,9 +871,26 @@ func main() {
 				spec{delay: 0, g1: G1, g2: G2, self: -1, onStdin: 100, onTerm: -1, holders: "i", recv: true},
 				spec{delay: 0, g1: G1, g2: G2, self: -1, onStdin: -1, onTerm: 100, holders: "eoi", recv: true},
 				spec{delay: 0, g1: G1, g2: G2, self: -1, onStdin: -1, onTerm: -1, holders: "eo", recv: false},
+				// a Write is blocked on the full input pipe of an agent that has stopped
+				// reading, for each way the agent can still be terminated
+				spec{delay: 1200, g1: G1, g2: G2, self: 300, onStdin: -1, onTerm: -1, writer: true},
+				spec{delay: 0, g1: G1, g2: G2, self: -1, onStdin: -1, onTerm: 100, writer: true},
+				spec{delay: 0, g1: G1, g2: G2, self: -1, onStdin: -1, onTerm: -1, writer: true},
+				spec{delay: 600, g1: G1, g2: G2, self: -1, onStdin: -1, onTerm: 100, writer: true, recv: true, holders: "e"},
 			)
-			for i := 0; i < c.Size(179, 3187); i++ {
+			for i := 0; i < c.Size(175, 3183); i++ {
 				sp := gen(c.R, G1, G2)
+				if c.R.Chance(1, 4) {
+					// the agent stops reading: it cannot react to end-of-file, and its own
+					// exit must not fall into the stage that only end-of-file would reveal
+					for {
+						sp = gen(c.R, G1, G2)
+						if st, _ := predict(sp); sp.onStdin < 0 && !sp.pre && st != "stdin" {
+							break
+						}
+					}
+					sp.writer = true
+				}
 				sp.recv = c.R.Chance(2, 3)
 				if c.R.Chance(2, 5) {
 					sp.holders = c.R.Pick("e", "e", "e", "o", "i", "eo", "ei", "oi", "eoi")
@@ -873,7 +945,13 @@ func main() {
 			if s.recv {
 				c.Count("stderr-receiver")
 			}
-			c.Case(s.line(o.stage), o.stage, verdict, fmt.Sprintf("%s/%d/%v/%v/%v/%s/%v", want, s.delay, s.self >= 0, s.onStdin >= 0, s.onTerm >= 0, s.holders, s.recv))
+			if s.writer {
+				c.Count("pending-write")
+				if o.writeAt != 0 && o.writeAt < o.close0 {
+					c.Count("pending-write:returned-before-close")
+				}
+			}
+			c.Case(s.line(o.stage), o.stage, verdict, fmt.Sprintf("%s/%d/%v/%v/%v/%s/%v", want, s.delay, s.self >= 0, s.onStdin >= 0, s.onTerm >= 0, s.holders, s.recv) + fmt.Sprint(s.writer))
 		}
 	})
 }
